@@ -495,6 +495,37 @@ def rule_pure(ctx: Ctx) -> RuleReport:
                     rep.fail(Finding("C06-PURE", DT, fi.qual, short(node, 120), f"observer {fi.qual} is not side-effect free: {msg}; a later observation or to_json() of the same result differs", line=node.lineno))
             else:
                 rep.ok({"observer": fi.qual, "writes_to_self": 0})
+    # __post_init__ may rebind a field of the new object (`self.x = self.x.strip()`), but must not change, in place, a container it was
+    # handed: observers build view objects (TableData, units) around the result's own lists, and a constructor that edits those lists
+    # edits the result -- the next to_json() differs
+    for c in m.classes.values():
+        pi = c.methods.get("__post_init__")
+        if pi is None:
+            continue
+        rep.unit(pi.key)
+        reach = _self_reach_names(pi.node)
+        fresh = _fresh_copy_names(pi.node)
+        bad_pi = []
+        for n in walk_own(pi.node):
+            if isinstance(n, (ast.Assign, ast.AugAssign)):
+                for t in (n.targets if isinstance(n, ast.Assign) else [n.target]):
+                    if isinstance(t, ast.Subscript):
+                        b = t.value
+                        while isinstance(b, (ast.Attribute, ast.Subscript)):
+                            b = b.value
+                        if isinstance(b, ast.Name) and b.id in reach and not (b.id in fresh and b.id != "self"):
+                            bad_pi.append((n, f"`{short(n, 50)}` stores into a container the object was constructed with"))
+            elif isinstance(n, ast.Call) and isinstance(n.func, ast.Attribute) and n.func.attr in MUTATORS:
+                b = n.func.value
+                while isinstance(b, (ast.Attribute, ast.Subscript)):
+                    b = b.value
+                if isinstance(b, ast.Name) and b.id in reach and not (b.id in fresh and b.id != "self") and not (isinstance(n.func.value, ast.Name) and n.func.value.id == "dict"):
+                    bad_pi.append((n, f"`{short(n, 50)}` mutates a container the object was constructed with"))
+        if bad_pi:
+            for node, msg in bad_pi:
+                rep.fail(Finding("C06-PURE", DT, pi.qual, short(node, 120), f"{c.name}.__post_init__ edits its argument in place: {msg}; observers build {c.name} objects around the result's own lists, so reading the result changes it", line=node.lineno))
+        else:
+            rep.ok({"post_init": pi.qual, "in_place_edits": 0})
     if n_methods < 150:
         raise AnalysisError(f"C06-PURE: only {n_methods} observer methods found (floor 150)")
     return rep
